@@ -256,6 +256,25 @@ func (e *enc) specX(env *specEnv, x SExpr) (tval, error) {
 			hi = h.t
 		}
 		return tval{fmt.Sprintf("(str.substr %s %s (- %s %s))", v.t, lo, hi, lo), strTy, "String"}, nil
+	case *STypeAssert:
+		v, err := e.specX(env, n.X)
+		if err != nil {
+			return tval{}, err
+		}
+		ty, err := e.resolveTy(env.pkg, n.Ty)
+		if err != nil {
+			return tval{}, err
+		}
+		if v.sort != "Int" || isIface(ty) {
+			return tval{}, fmt.Errorf("type assertion in a spec needs an interface value and a concrete type")
+		}
+		if n.Test {
+			tag := e.uf("dyntag", []string{"Int"}, "Int")
+			return e.mkT(fmt.Sprintf("(and (not (= %s 0)) (= (%s %s) %d))", v.t, tag, v.t, e.typeTag(ty)), boolTy), nil
+		}
+		s := e.so.of(ty)
+		unbox := e.uf("unbox_"+clean(s), []string{"Int"}, s)
+		return e.mkT(fmt.Sprintf("(%s %s)", unbox, v.t), ty), nil
 	case *SField:
 		// package-qualified global / constant: pkg.Name
 		if id, ok := n.X.(*SIdent); ok {
